@@ -77,7 +77,11 @@ Print Assumptions C10_validJumpdest_is_D.
    the instructions it defines, every code and call data (bytes, shorter than 2^62), every environment of words,
    every gas amount and every number of iterations: whenever the interpreter run ends -- STOP, RETURN, REVERT with
    its data, or a fault other than running out of gas -- the Yellow-Paper run of the same length ends the same way
-   with the same output (or has met an instruction outside the gas-free set: GAS, storage, calls, logs ...).
+   with the same output (or has met an instruction outside the gas-free set: GAS, storage, other calls, logs ...).
+   CALL / STATICCALL to the identity precompile (0x04) are inside both machines and make the return-data buffer
+   non-empty; the hypothesis on the ghost monitor [run_flag] excludes the runs in which such a call ran out of callee
+   gas (not expressible without gas) or left return data that differs from its input -- the latter happens in the
+   code as it is (C10_returndata_overlap_refuted below).
    The simulation relation (Sim.R) ties pc, stack and every memory byte of the two states after every step. *)
 Theorem C10_refines_yellow_paper : forall defined hash E P c input,
   table_ok defined P = true ->
@@ -85,6 +89,7 @@ Theorem C10_refines_yellow_paper : forall defined hash E P c input,
   (forall x, 0 <= cnth c x < 256) -> (forall x, 0 <= cnth input x < 256) ->
   (forall l, word (hash l)) -> (forall k, word (env_get E k)) ->
   forall fuel gas,
+    run_flag impl_op valid_jumpdest hash E P c input fuel (init gas) = false ->
     (exists w, yrun spec_op defined hash E c input fuel y0 = YOutside w) \/
     match proj (fst (run impl_op valid_jumpdest hash E P c input fuel (init gas))) with
     | Some r => yrun spec_op defined hash E c input fuel y0 = r
@@ -159,3 +164,29 @@ Example C10_example_run :
   clen c <= U64 /\
   run_impl (fun _ => 0) (mkEnv 0 0 0 0 0 0 0 0 0 0 0 0) P c [] 100 1000 = (OReturn (repeat 0 31 ++ [2]) (1000 - 8 * 3 - 3), 2).
 Proof. cbv zeta. split; vm_compute; [discriminate|reflexivity]. Qed.
+
+(* KNOWN FINDING C10/returndata:identity-in-out-overlap, in the model as in the code: the refinement does not hold
+   without the monitor hypothesis.  Code: MSTORE(0, bytes 1..32); STATICCALL(gas 0xffff, to 4, in = mem[0..32),
+   out = mem[16..32)); RETURNDATACOPY(64, 0, 32); RETURN(64, 32).  The identity precompile's output is bytes 1..32 (the
+   Yellow-Paper run returns them); the interpreter-shaped run returns bytes 1..16 twice, because dataCopy.Run hands back
+   the caller's memory window, opCall copies the output into it and only then is the window snapshotted. *)
+Theorem C10_returndata_overlap_refuted :
+  exists defined hash E P c input fuel gas r,
+    table_ok defined P = true /\
+    run_flag impl_op valid_jumpdest hash E P c input fuel (init gas) = true /\
+    proj (fst (run impl_op valid_jumpdest hash E P c input fuel (init gas))) = Some r /\
+    yrun spec_op defined hash E c input fuel y0 = YReturn (map Z.of_nat (seq 1 32)) /\
+    r = YReturn (map Z.of_nat (seq 1 16 ++ seq 1 16)).
+Proof.
+  exists (fun w => match delta_alpha w with Some _ => true | None => false end), (fun _ => 0),
+         (mkEnv 1 2 3 4 5 6 7 8 9 10 11 12),
+         (mkParams (map (fun k => match delta_alpha (Z.of_nat k) with
+                                  | Some (d, a) => mkRow true 3 d (1024 + d - a)
+                                  | None => no_row end) (seq 0 256)) 1),
+         ([127] ++ map Z.of_nat (seq 1 32) ++
+          [96; 0; 82; 96; 16; 96; 16; 96; 32; 96; 0; 96; 4; 97; 255; 255; 250; 80;
+           96; 32; 96; 0; 96; 64; 62; 96; 32; 96; 64; 243]),
+         [], 100%nat, 100000, (YReturn (map Z.of_nat (seq 1 16 ++ seq 1 16))).
+  repeat (match goal with |- _ /\ _ => split end); vm_compute; reflexivity.
+Qed.
+Print Assumptions C10_returndata_overlap_refuted.
